@@ -15,6 +15,67 @@ def noEff (p : Prog) : Bool := p.all fun d => match d with | .eff _ => false | _
 /-- no `unjust` event in the log -/
 def LogOK (s : State) : Prop := ∀ i, Ev.unjust i ∉ s.log
 
+/-- the log of `s'` extends the log of `s` by events satisfying `good` -/
+def LogExt (good : Ev → Prop) (s s' : State) : Prop :=
+  ∃ suf, s'.log = s.log ++ suf ∧ ∀ ev ∈ suf, good ev
+
+theorem LogExt.refl (good : Ev → Prop) (s : State) : LogExt good s s :=
+  ⟨[], by simp, fun _ h => by cases h⟩
+
+theorem LogExt.of_eq {good : Ev → Prop} {s s' : State} (h : s'.log = s.log) : LogExt good s s' :=
+  ⟨[], by simp [h], fun _ h => by cases h⟩
+
+theorem LogExt.trans {good : Ev → Prop} {s s' s'' : State} (h1 : LogExt good s s')
+    (h2 : LogExt good s' s'') : LogExt good s s'' := by
+  obtain ⟨a, ha, ga⟩ := h1
+  obtain ⟨b, hb, gb⟩ := h2
+  refine ⟨a ++ b, by rw [hb, ha, List.append_assoc], fun ev hev => ?_⟩
+  rcases List.mem_append.1 hev with h | h
+  · exact ga ev h
+  · exact gb ev h
+
+theorem LogExt.mono {good good' : Ev → Prop} {s s' : State} (h : LogExt good s s')
+    (hg : ∀ ev, good ev → good' ev) : LogExt good' s s' := by
+  obtain ⟨a, ha, ga⟩ := h
+  exact ⟨a, ha, fun ev hev => hg ev (ga ev hev)⟩
+
+theorem LogExt.emit {good : Ev → Prop} {s : State} {ev : Ev} (h : good ev) : LogExt good s (s.emit ev) :=
+  ⟨[ev], rfl, fun e he => by rw [List.mem_singleton.1 he]; exact h⟩
+
+/-- events that are neither `unjust` nor `ran` -/
+def QuietEv (ev : Ev) : Prop := (∀ i, ev ≠ .unjust i) ∧ (∀ i, ev ≠ .ran i)
+
+/-- every `ran i` event is the run of a memo (kinds taken in `s`) -/
+def MemoEv (s : State) (ev : Ev) : Prop := ∀ i, ev = .ran i → (s.get i).kind = .memo
+
+/-- number of `ran i` events in a piece of log -/
+def countRan (i : Nat) (l : List Ev) : Nat := l.countP (fun ev => decide (ev = Ev.ran i))
+
+theorem countRan_append (i : Nat) (a b : List Ev) : countRan i (a ++ b) = countRan i a + countRan i b := by
+  simp [countRan, List.countP_append]
+
+theorem countRan_quiet (i : Nat) (l : List Ev) (h : ∀ ev ∈ l, QuietEv ev) : countRan i l = 0 := by
+  simp only [countRan, List.countP_eq_zero, decide_eq_true_eq]
+  intro ev hev hc
+  exact (h ev hev).2 i hc
+
+/-- the ghost counter `runs` counts exactly the `ran` events logged between `s` and `s'` -/
+def RunsX (s s' : State) : Prop :=
+  ∃ suf, s'.log = s.log ++ suf ∧ ∀ i, (s'.get i).runs = (s.get i).runs + countRan i suf
+
+theorem RunsX.refl (s : State) : RunsX s s := ⟨[], by simp, fun _ => by simp [countRan]⟩
+
+theorem RunsX.trans {s s' s'' : State} (h1 : RunsX s s') (h2 : RunsX s' s'') : RunsX s s'' := by
+  obtain ⟨a, ha, ra⟩ := h1
+  obtain ⟨b, hb, rb⟩ := h2
+  refine ⟨a ++ b, by rw [hb, ha, List.append_assoc], fun i => ?_⟩
+  rw [rb i, ra i, countRan_append]; omega
+
+theorem RunsX.of_quiet {s s' : State} (h : LogExt QuietEv s s') (hr : ∀ i, (s'.get i).runs = (s.get i).runs) :
+    RunsX s s' := by
+  obtain ⟨a, ha, ga⟩ := h
+  exact ⟨a, ha, fun i => by rw [hr i, countRan_quiet i a ga]; rfl⟩
+
 /-- the cached value of memo `m` is its body evaluated at the tracked values it saw and some
 snapshot of the untracked reads -/
 def Replays (p : Prog) (s : State) (m : Nat) : Prop :=
@@ -113,11 +174,13 @@ structure Frame (s s' : State) (k : Nat) : Prop where
   effD : ∀ i, (s.get i).kind = .eff → (s'.get i).dirty = true →
     (s.get i).dirty = true ∨ ∃ y ∈ (s.get i).sources, (s.get y).ver < (s'.get y).ver
   flags : FlagRel s s'
+  logx : LogExt (MemoEv s) s s'
+  runsx : RunsX s s'
 
 theorem Frame.refl (s : State) (k : Nat) : Frame s s k :=
   ⟨rfl, fun _ => rfl, fun _ h => ⟨h, rfl⟩, fun _ => Nat.le_refl _,
    fun _ _ => rfl, fun _ _ => ⟨rfl, .inl rfl⟩, fun h => h, fun _ _ => rfl, fun _ _ h => .inl h,
-   FlagRel.refl s⟩
+   FlagRel.refl s, LogExt.refl _ s, RunsX.refl s⟩
 
 theorem Frame.trans {s s' s'' : State} {k : Nat} (h1 : Frame s s' k) (h2 : Frame s' s'' k) :
     Frame s s'' k where
@@ -153,6 +216,8 @@ theorem Frame.trans {s s' s'' : State} {k : Nat} (h1 : Frame s s' k) (h2 : Frame
     · rw [hsrc] at hy
       exact .inr ⟨y, hy, Nat.lt_of_le_of_lt (h1.verMono y) hv⟩
   flags := h1.flags.trans h2.flags
+  logx := h1.logx.trans (h2.logx.mono (fun ev hev i hi => by rw [← h1.kind]; exact hev i hi))
+  runsx := h1.runsx.trans h2.runsx
 
 theorem Frame.mono {s s' : State} {k k' : Nat} (h : Frame s s' k) (hk : k ≤ k') : Frame s s' k' :=
   { h with above := fun i hi => h.above i (Nat.le_trans hk hi) }
@@ -165,9 +230,10 @@ structure MarkRel (s s' : State) : Prop where
   rank : ∀ i, (s.get i).st.rank ≤ (s'.get i).st.rank
   notMemo : ∀ i, (s.get i).kind ≠ .memo → (s'.get i).st = (s.get i).st
   log : LogOK s → LogOK s'
+  logx : LogExt QuietEv s s'
 
 theorem MarkRel.refl (s : State) : MarkRel s s :=
-  ⟨rfl, rfl, fun _ => rfl, fun _ => Nat.le_refl _, fun _ _ => rfl, fun h => h⟩
+  ⟨rfl, rfl, fun _ => rfl, fun _ => Nat.le_refl _, fun _ _ => rfl, fun h => h, LogExt.refl _ s⟩
 
 theorem MarkRel.trans {s s' s'' : State} (h1 : MarkRel s s') (h2 : MarkRel s' s'') : MarkRel s s'' where
   len := h2.len.trans h1.len
@@ -178,6 +244,7 @@ theorem MarkRel.trans {s s' s'' : State} (h1 : MarkRel s s') (h2 : MarkRel s' s'
     have hk : (s'.get i).kind = (s.get i).kind := (Node.core_fields (h1.core i)).1
     exact (h2.notMemo i (by rw [hk]; exact h)).trans (h1.notMemo i h)
   log h := h2.log (h1.log h)
+  logx := h1.logx.trans h2.logx
 
 theorem MarkRel.kind {s s'} (h : MarkRel s s') (i : Nat) : (s'.get i).kind = (s.get i).kind :=
   (Node.core_fields (h.core i)).1
@@ -351,6 +418,27 @@ theorem ValCh.trans {s s1 s2 : State} {k : Nat} (h1 : ValCh s s1) (h2 : ValCh s1
     · exact .inl (f2.flags.d i h')
     · exact .inr (.inl h')
     · exact .inr (.inr h')
+
+/-- between `s` and `s'` every node ran at most once, and a node that ran is clean afterwards
+(and was not clean before) -/
+def RunRel (s s' : State) : Prop :=
+  ∀ i, (s'.get i).runs = (s.get i).runs ∨
+    ((s'.get i).runs = (s.get i).runs + 1 ∧ (s'.get i).st = .clean ∧ (s.get i).st ≠ .clean)
+
+theorem RunRel.of_eq {s s' : State} (h : ∀ i, (s'.get i).runs = (s.get i).runs) : RunRel s s' :=
+  fun i => .inl (h i)
+
+theorem RunRel.trans {s s1 s2 : State} (h1 : RunRel s s1) (h2 : RunRel s1 s2)
+    (c1 : ∀ i, (s.get i).st = .clean → (s1.get i).st = .clean)
+    (c2 : ∀ i, (s1.get i).st = .clean → (s2.get i).st = .clean) : RunRel s s2 := by
+  intro i
+  rcases h1 i with a | a
+  · rcases h2 i with b | b
+    · exact .inl (b.trans a)
+    · exact .inr ⟨by rw [b.1, a], b.2.1, fun hc => b.2.2 (c1 i hc)⟩
+  · rcases h2 i with b | b
+    · exact .inr ⟨by rw [b, a.1], c2 i a.2.1, a.2.2⟩
+    · exact absurd a.2.1 b.2.2
 
 /-- `InvR` does not depend on the log, and on `obs` only through `obsRun` -/
 theorem InvR.reobs {p : Prog} {s s' : State} (h : InvR p s) (hn : s'.nodes = s.nodes)
